@@ -27,6 +27,8 @@ func VH_C20_snapshot() {
 		}
 	}
 	deleted := map[string]bool{}
+	updated := map[string]bool{}
+	later := map[string]bool{} // stored after the evaluation
 	nw := vLen("writes", 1, vBound("W", 1))
 	for w := 0; w < nw; w++ {
 		switch vChoice("mut", 3) {
@@ -34,6 +36,7 @@ func VH_C20_snapshot() {
 			o := vhNewObj()
 			err := db.InsertOrUpdate(o)
 			vAssert("C20.mut.insert", err == nil)
+			later[o.UUID()] = true
 		case 1: // delete a stored object
 			k := vLen("k", 0, pre-1)
 			if deleted[rows[k].uuid] {
@@ -53,7 +56,68 @@ func VH_C20_snapshot() {
 			o.Initialize(rows[k].uuid)
 			err := db.InsertOrUpdate(o)
 			vAssert("C20.mut.update", err == nil)
+			updated[rows[k].uuid] = true
 		}
+	}
+	switch vChoice("use", vBound("USE", 4)) {
+	case 1: // a refinement evaluated now is still relative to the original matches
+		op2 := []string{">=", "!=", "<", "=", "<=", ">"}[vChoice("_op2", vBound("OP2", 6))]
+		p2 := vInt64("probe2")
+		r := s.And("A", op2, p2)
+		objs, err := r.Collect()
+		if r.Err() != nil || err != nil {
+			vAssert("C20.and.error_only_if_deleted_match", vhC20AnyDeletedMatch(deleted, matched))
+			return
+		}
+		vAssert("C20.and.len", r.Len() == len(objs))
+		seen := map[string]bool{}
+		for _, o := range objs {
+			vAssert("C20.and.only_matched", matched[o.UUID()] && !later[o.UUID()])
+			vAssert("C20.and.once", !seen[o.UUID()])
+			vAssert("C20.and.not_deleted", !deleted[o.UUID()])
+			seen[o.UUID()] = true
+		}
+		for i := range rows {
+			u := rows[i].uuid
+			if matched[u] && !deleted[u] && !updated[u] {
+				vAssert("C20.and.unchanged_match_iff_predicate", vIff(seen[u], vhCmp(op2, rows[i].o.A, p2)))
+			}
+		}
+		return
+	case 2: // deleting through the snapshot removes matched objects only
+		derr := s.Delete()
+		if derr != nil {
+			vAssert("C20.delete.error_only_if_deleted_match", vhC20AnyDeletedMatch(deleted, matched))
+			return
+		}
+		for i := range rows {
+			u := rows[i].uuid
+			probe := &vObj{}
+			probe.Initialize(u)
+			ok, eerr := db.Exist(probe)
+			vAssert("C20.delete.exist_ok", eerr == nil)
+			vAssert("C20.delete.exactly_matched", ok == (!matched[u] && !deleted[u]))
+		}
+		for u := range later {
+			probe := &vObj{}
+			probe.Initialize(u)
+			ok, eerr := db.Exist(probe)
+			vAssert("C20.delete.later_object_survives", eerr == nil && ok)
+		}
+		return
+	case 3: // Len / One / Reverse views
+		n := s.Len()
+		cnt := 0
+		for u := range matched {
+			_ = u
+			cnt++
+		}
+		vAssert("C20.len.fixed_at_evaluation", n == cnt)
+		o, oerr := s.Reverse().One()
+		if oerr == nil {
+			vAssert("C20.one.only_matched", matched[o.UUID()] && !later[o.UUID()])
+		}
+		return
 	}
 	// collecting afterwards: only objects that matched, each at most
 	// once; a deleted one is an error or is omitted
@@ -75,4 +139,13 @@ func VH_C20_snapshot() {
 		vAssert("C20.collect.not_deleted", !deleted[o.UUID()])
 		seen[o.UUID()] = true
 	}
+}
+
+func vhC20AnyDeletedMatch(deleted, matched map[string]bool) bool {
+	for u := range deleted {
+		if matched[u] {
+			return true
+		}
+	}
+	return false
 }
